@@ -544,12 +544,14 @@ class ActivityAnalyzer(transformer.Base):
       self.scope.bound.add(qual_names.QN(node.name))
       node.bases = self.visit_block(node.bases)
       node.keywords = self.visit_block(node.keywords)
-      self._exit_and_record_scope(node)
 
-      # A separate Scope tracks the actual class definition.
+      # A separate Scope tracks the actual class definition. The class body runs
+      # when the class statement does: what it reads from the enclosing scopes
+      # is read by the statement.
       self._enter_scope(True)
       node = self.generic_visit(node)
       self._exit_scope()
+      self._exit_and_record_scope(node)
       return node
 
   def _visit_node_list(self, nodes):
